@@ -17,9 +17,11 @@ open Ural.Py Ural
 /-- `.` or `..` -/
 def isDotSeg (s : Str) : Bool := s = ['.'] || s = ['.', '.']
 
-/-- the characters of a path-borne field for which the round trip is proved: anything but the
-url delimiters `/ ? #`, the params delimiter `;` and TAB CR LF (which `urlsplit` deletes) -/
-def segChar (c : Char) : Bool := c ≠ '/' && c ≠ '?' && c ≠ '#' && c ≠ ';' && !isUnsafeUrlChar c
+/-- the characters of a path-borne field: anything but the url delimiters `/ ? #` and TAB CR LF
+(which `urlsplit` deletes) — what a path segment returned by `urlsplit` + `pathsplit` is made of
+(`cleanChar` below is the same test).  `;` is allowed: it matters only in the *last* segment of the
+canonical path (`lastSemiOk`). -/
+def segChar (c : Char) : Bool := c ≠ '/' && c ≠ '?' && c ≠ '#' && !isUnsafeUrlChar c
 
 /-- `s` starts with white space (`str.isspace`) -/
 def blankHead (s : Str) : Bool := s.head?.any isSpace
@@ -31,14 +33,31 @@ def blankLast (s : Str) : Bool := s.getLast?.any isSpace
 white space at either end (white space *inside* is fine) -/
 def segOk (s : Str) : Bool := !s.isEmpty && s.all segChar && !isDotSeg s && !blankHead s && !blankLast s
 
-/-- the characters of a query-borne field for which the round trip is proved: anything but
-`&` (item separator), `#`, `+` and `%` (decoded by `parse_qs`), TAB, CR, LF (deleted by
-`urlsplit`) -/
-def qvalChar (c : Char) : Bool :=
-  c ≠ '&' && c ≠ '#' && c ≠ '+' && c ≠ '%' && !isUnsafeUrlChar c
+/-- the `;` test of the field that *ends* the canonical path: `urljoin` (`urlparse` / `urlunparse`)
+splits the last segment at its first `;` into segment and params, resolves dot segments on the
+path without the params, and puts `;params` back only when the params are not empty.  So the field
+comes back verbatim exactly when what precedes its first `;` (all of it when there is none) is not
+`.` / `..`, and its first `;` is not its last character. -/
+def lastSemiOk (s : Str) : Bool :=
+  !isDotSeg (splitFirst s ';').1 && decide ((splitFirst s ';').2 ≠ some [])
 
-/-- a query value the round trip is proved for: not empty, made of `qvalChar`s -/
-def qvalOk (s : Str) : Bool := !s.isEmpty && s.all qvalChar
+/-- the field that ends the canonical path -/
+def lastOk (s : Str) : Bool := segOk s && lastSemiOk s
+
+/-- `s` holds a percent escape: a `%` followed by two hexadecimal digits -/
+def hasEscape : Str → Bool
+  | [] => false
+  | c :: rest => (c == '%' && (pctHead rest).isSome) || hasEscape rest
+
+/-- the characters of a query-borne field for which the round trip is proved: anything but
+`&` (item separator), `#`, `+` (decoded by `parse_qs`), TAB, CR, LF (deleted by `urlsplit`); `%` is
+allowed, a percent *escape* is not (`hasEscape`) -/
+def qvalChar (c : Char) : Bool :=
+  c ≠ '&' && c ≠ '#' && c ≠ '+' && !isUnsafeUrlChar c
+
+/-- a query value the round trip is proved for: not empty, made of `qvalChar`s, without a percent
+escape (`parse_qs` would decode it) -/
+def qvalOk (s : Str) : Bool := !s.isEmpty && s.all qvalChar && !hasEscape s
 
 /-- `s` does not start with `watch`: the url is not taken by the `"/watch" in path` route -/
 def noWatch (s : Str) : Bool := !startsWith s (lit "watch")
@@ -46,29 +65,29 @@ def noWatch (s : Str) : Bool := !startsWith s (lit "watch")
 /-- `FacebookHandle(h)`: `h` is a good segment that no earlier route takes (`watch…`, `people…`)
 and that the handle route accepts (no `.php` suffix) -/
 def handleOk (h : Str) : Bool :=
-  segOk h && noWatch h && !startsWith h (lit "people") && !endsWith h (lit ".php")
+  lastOk h && noWatch h && !startsWith h (lit "people") && !endsWith h (lit ".php")
 
 /-- `FacebookVideo(id, parent_id=pid)` -/
-def videoParentOk (pid id : Str) : Bool := segOk pid && segOk id && noWatch pid && noWatch id
+def videoParentOk (pid id : Str) : Bool := segOk pid && lastOk id && noWatch pid && noWatch id
 
 /-- `FacebookPost(id, parent_handle=ph)`: `ph` is not an id, and not a word that an earlier route
 (`videos`, `photos`) or the posts route itself (`groups`) would read differently -/
 def postHandleOk (ph id : Str) : Bool :=
-  segOk ph && segOk id && noWatch ph && noWatch id && !is_facebook_id ph &&
+  segOk ph && lastOk id && noWatch ph && noWatch id && !is_facebook_id ph &&
   decide (ph ≠ lit "videos") && decide (ph ≠ lit "photos") && decide (ph ≠ lit "groups")
 
 /-- `FacebookPost(id, group_id=g)` / `group_handle=g` -/
 def postGroupOk (g id : Str) : Bool :=
-  segOk g && segOk id && noWatch g && noWatch id && decide (g ≠ lit "videos") && decide (g ≠ lit "photos")
+  segOk g && lastOk id && noWatch g && noWatch id && decide (g ≠ lit "videos") && decide (g ≠ lit "photos")
 
 /-- `FacebookGroup(id=g)` / `handle=g` -/
-def groupOk (g : Str) : Bool := segOk g && noWatch g
+def groupOk (g : Str) : Bool := lastOk g && noWatch g
 
 /-- `FacebookPhoto(id, parent_id=p | parent_handle=p, album_id=aid)`: the album id is not empty
 (the parser returns `None` on an empty one) and does not end with white space (it ends the
 segment `a.<album>`); it may contain `a.` — only the prefix is removed -/
 def photoPathOk (p aid id : Str) : Bool :=
-  segOk p && segOk id && !aid.isEmpty && aid.all segChar && !blankLast aid && noWatch p && noWatch id &&
+  segOk p && lastOk id && !aid.isEmpty && aid.all segChar && !blankLast aid && noWatch p && noWatch id &&
     decide (p ≠ lit "videos")
 
 /-- `None`, or a good query value -/
@@ -83,12 +102,14 @@ def photoQueryOk (id : Str) (gid aid : Option Str) : Bool := qvalOk id && optQva
 /-- the records for which the round trip is proved, shape by shape (all hypotheses are
 decidable and spelled out in `Lemmas/FacebookShapes.lean`):
 
-* a field that ends up in the *path* of the url is `segOk`: not empty, without `/ ? # ;` TAB CR
-  LF, without white space at its ends, not `.` / `..`; it must not start with `watch` (nor, for
-  a handle, with `people`, nor end with `.php`), must not be a route word that an earlier route
-  of the parser tests (`videos`, `photos`, `groups` where relevant); an album id is not empty,
-  without `/ ? # ;` TAB CR LF, without white space at its end;
-* a field that ends up in the *query* is `qvalOk`: not empty, without `& # + %`, TAB, CR, LF;
+* a field that ends up in the *path* of the url is `segOk`: not empty, without `/ ? #` TAB CR
+  LF, without white space at its ends, not `.` / `..`; the one that ends the path is `lastOk`: what
+  precedes its first `;` is not `.` / `..` either and its first `;` is not its last character; it
+  must not start with `watch` (nor, for a handle, with `people`, nor end with `.php`), must not be
+  a route word that an earlier route of the parser tests (`videos`, `photos`, `groups` where
+  relevant); an album id is not empty, without `/ ? #` TAB CR LF, without white space at its end;
+* a field that ends up in the *query* is `qvalOk`: not empty, without `& # +`, TAB, CR, LF, without
+  a percent escape;
 * ids and handles are told apart by `is_facebook_id`, as the parser does;
 * only the field combinations the parser produces (`Shaped`). -/
 def reparsable : Parsed → Bool
@@ -123,14 +144,19 @@ def reparsable : Parsed → Bool
         | _, _ => false)
      | some _, some _ => false)
 
-/-- a path-borne field that `urljoin` rebuilds verbatim: no `;` (an empty `;params` is dropped),
-not a dot segment (resolved).  Nothing else: that the field is not empty, has no white space at
-its ends, no `/ ? #` and no TAB CR LF is *derived* for what the parser returns
-(`parsed_fields_nonempty`, `parsed_path_fields_clean`). -/
-def segChars (s : Str) : Bool := !s.contains ';' && !isDotSeg s
+/-- a path-borne field that does not end the canonical path is rebuilt verbatim by `urljoin` exactly
+when it is not a dot segment (`.` / `..` are resolved).  Nothing else: that the field is not
+empty, has no white space at its ends, no `/ ? #` and no TAB CR LF is *derived* for what the parser
+returns (`parsed_fields_nonempty`, `parsed_path_fields_clean`); a `;` in it is kept. -/
+def segChars (s : Str) : Bool := !isDotSeg s
 
-/-- the characters of a query-borne field are ordinary: no `& # + %` TAB CR LF -/
-def qvalChars (s : Str) : Bool := s.all qvalChar
+/-- the path-borne field that ends the canonical path: `lastSemiOk` (which implies that the field
+itself is not a dot segment) -/
+def lastChars (s : Str) : Bool := lastSemiOk s
+
+/-- a query-borne field comes back verbatim from `urlsplit` + `parse_qs` exactly when it has no
+`& # +` TAB CR LF and no percent escape -/
+def qvalChars (s : Str) : Bool := s.all qvalChar && !hasEscape s
 
 /-- `None`, or made of ordinary query characters -/
 def optQvalChars (o : Option Str) : Bool :=
@@ -138,44 +164,50 @@ def optQvalChars (o : Option Str) : Bool :=
   | none => true
   | some s => qvalChars s
 
-/-- **the residual hypothesis of the round trip of what the parser returns**
-(`Ural.Props.C19.Facebook.reparse_of_parse_partial`): only the characters that the builders do not
-escape and that `urljoin` / `urlsplit` / `parse_qs` read as syntax — every field that goes to the
-*path* of the canonical url has no `;` (`urljoin` drops an empty `;params`) and is not `.` / `..`
-(`urljoin` resolves dot segments); every field that goes to its *query* has no `& # + %` TAB CR LF
-(`parse_qs` decodes `+ %` and splits at `&`, `urlsplit` cuts at `#` and deletes TAB CR LF — a
-query value can hold any of them, decoded from an escape).  Each really fails
-(`excluded_shapes_fail`).  Which fields go where depends on the shape of the record; a record
-with a field combination the parser never returns is outside. -/
+/-- **the condition of the round trip of what the parser returns**
+(`Ural.Props.C19.Facebook.reparse_of_parse_partial`: sufficient, proved; observed to be necessary
+too on the real code, proved necessary only on one witness per kind): only what the
+builders do not escape and `urljoin` / `urlsplit` / `parse_qs` read as syntax —
+
+* a field that goes to the *path* of the canonical url is not `.` / `..` (`urljoin` resolves dot
+  segments); the one that *ends* the path is moreover `lastSemiOk`: what precedes its first `;` is
+  not `.` / `..` and its first `;` is not its last character (`urljoin` drops an empty `;params`);
+  an album id (`a.<album>`, never the last segment, never a dot segment) has no condition;
+* a field that goes to its *query* has no `& # +` TAB CR LF and no percent escape `%XX` (`parse_qs`
+  decodes `+` and escapes and splits at `&`, `urlsplit` cuts at `#` and deletes TAB CR LF — a query
+  value can hold any of them, decoded from an escape).
+
+Which fields go where depends on the shape of the record; a record with a field combination the
+parser never returns is outside. -/
 def charsOk : Parsed → Bool
   | .user id h => h.isNone && qvalChars id
-  | .handle h => segChars h
+  | .handle h => lastChars h
   | .group id h =>
     (match id, h with
-     | some g, none => segChars g
-     | none, some g => segChars g
+     | some g, none => lastChars g
+     | none, some g => lastChars g
      | _, _ => false)
   | .post id pid ph gid gh =>
     (match pid, ph, gid, gh with
      | some p, none, none, none => qvalChars p && qvalChars id
-     | none, some x, none, none => segChars x && segChars id
-     | none, none, some g, none => segChars g && segChars id
-     | none, none, none, some g => segChars g && segChars id
+     | none, some x, none, none => segChars x && lastChars id
+     | none, none, some g, none => segChars g && lastChars id
+     | none, none, none, some g => segChars g && lastChars id
      | _, _, _, _ => false)
   | .video id pid =>
     (match pid with
      | none => qvalChars id
-     | some p => segChars p && segChars id)
+     | some p => segChars p && lastChars id)
   | .photo id gid pid ph aid =>
     (match pid, ph with
      | none, none => qvalChars id && optQvalChars gid && optQvalChars aid
      | some p, none =>
        (match gid, aid with
-        | none, some a => segChars p && segChars id && !a.contains ';'
+        | none, some _ => segChars p && lastChars id
         | _, _ => false)
      | none, some p =>
        (match gid, aid with
-        | none, some a => segChars p && segChars id && !a.contains ';'
+        | none, some _ => segChars p && lastChars id
         | _, _ => false)
      | some _, some _ => false)
 
